@@ -124,3 +124,47 @@ stale_query!(@concrete hull_stale_facet_visible_c56, |h, t, p, f| { let r = h.is
     "OBL stale-facet-visible: is_facet_visible_from_point() on a stale hull reports StaleHull instead of an answer", 5, 6);
 stale_query!(@concrete hull_stale_find_nearest_c65, |h, t, p, _f| { let r = h.find_nearest_visible_facet(p, t); let s = matches!(&r, Err(ConvexHullConstructionError::StaleHull { .. })); core::mem::forget(r); s },
     "OBL stale-find-nearest: find_nearest_visible_facet() on a stale hull reports StaleHull instead of an answer", 6, 5);
+
+// ---- quick-tier versions: the per-facet helper is replaced by a stub that only records that it
+// ---- was reached.  Obligation: a stale hull is refused BEFORE the helper or any cache build runs.
+const E_HELPER: u64 = 2;
+fn stub_helper<K, U, V, const D: usize>(
+    _h: &ConvexHull<K, U, V, D>, _f: &FacetHandle, _p: &Point<K::Scalar, D>, _t: &Triangulation<K, U, V, D>, _m: &FacetToCellsMap,
+) -> Result<bool, ConvexHullConstructionError>
+where K: Kernel<D>, K::Scalar: ScalarAccumulative + Sub<Output = K::Scalar> + DivAssign + Copy, U: DataType, V: DataType, [K::Scalar; D]: Copy + Sized {
+    vk_event(E_HELPER);
+    Ok(kani::any())
+}
+macro_rules! stale_query_fast {
+    ($name:ident, $call:expr, $obl:literal) => {
+        #[kani::proof]
+        #[kani::unwind(4)]
+        #[kani::stub(Tds::build_facet_to_cells_map, stub_map)]
+        #[kani::stub(Tds::generation, stub_generation)]
+        #[kani::stub(ConvexHull::is_facet_visible_from_point_with_cache, stub_helper)]
+        fn $name() {
+            let g: u64 = kani::any();
+            let t: u64 = kani::any();
+            kani::assume(g != t); // the triangulation changed after the hull was extracted
+            let tri = mk_tri(t);
+            let hull = mk_hull(Some(g), 1);
+            vk_reset(0, 0);
+            let p: Point<f64, 2> = Point::new([kani::any(), kani::any()]);
+            let f = FacetHandle::new(CellKey::from(KeyData::from_ffi(0x1_0000_0001)), 0);
+            let call: fn(&Hull2, &Tri2, &Point<f64, 2>, &FacetHandle) -> bool = $call;
+            let stale = call(&hull, &tri, &p, &f);
+            assert!(stale, $obl);
+            assert!(vk_ncalls() == 0, "OBL refused-first: staleness is reported before any facet-cache build and before any per-facet visibility work");
+            core::mem::forget(hull);
+            core::mem::forget(tri);
+        }
+    };
+}
+stale_query_fast!(hull_stale_fast_is_point_outside, |h, t, p, _f| { let r = h.is_point_outside(p, t); let s = matches!(&r, Err(ConvexHullConstructionError::StaleHull { .. })); core::mem::forget(r); s },
+    "OBL stale-is-point-outside: is_point_outside() on a stale hull reports StaleHull instead of an answer");
+stale_query_fast!(hull_stale_fast_find_visible, |h, t, p, _f| { let r = h.find_visible_facets(p, t); let s = matches!(&r, Err(ConvexHullConstructionError::StaleHull { .. })); core::mem::forget(r); s },
+    "OBL stale-find-visible: find_visible_facets() on a stale hull reports StaleHull instead of an answer");
+stale_query_fast!(hull_stale_fast_find_nearest, |h, t, p, _f| { let r = h.find_nearest_visible_facet(p, t); let s = matches!(&r, Err(ConvexHullConstructionError::StaleHull { .. })); core::mem::forget(r); s },
+    "OBL stale-find-nearest: find_nearest_visible_facet() on a stale hull reports StaleHull instead of an answer");
+stale_query_fast!(hull_stale_fast_facet_visible, |h, t, p, f| { let r = h.is_facet_visible_from_point(f, p, t); let s = matches!(&r, Err(ConvexHullConstructionError::StaleHull { .. })); core::mem::forget(r); s },
+    "OBL stale-facet-visible: is_facet_visible_from_point() on a stale hull reports StaleHull instead of an answer");
